@@ -5,3 +5,4 @@ CONSTANTS
   MaxVals = 3
   MaxSteps = 6
   MaxDepth = 1
+  EmitAll = TRUE
